@@ -7,7 +7,7 @@ VERIF = os.path.dirname(os.path.dirname(os.path.abspath(__file__)))
 
 # id -> (technique, level text, level note, design ref)
 CHECKS = {
-    "C15": ("differential oracle over compilations: artefact hashes (bytecode listing, WASM bytes, state layout, outputs) back to back, after random compilation histories, and in fresh processes",
+    "C15": ("differential oracle over compilations: artefact hashes (bytecode listing, WASM bytes, state layout, outputs) back to back, before and after random compilation histories (also histories of projects whose external modules share names), and in fresh processes",
             "Each program is compiled repeatedly in one process (also after up to 50 other programs) and in 4-8 fresh processes with their own hash seeds; the four artefacts named by the property are hashed and must be identical everywhere.",
             "FNV-1a hash + length stand in for byte equality; a fresh process gets fresh RandomState keys.", "DESIGN.md §3 C15"),
     "C12": ("counter-equality monitor at quiescent points (Machine.closures / Machine.heap after sample W+N vs W+2N) + handle-validity hooks, over generated closure-heavy programs, shipped sources and mutations",
@@ -30,20 +30,20 @@ CHECKS = {
             "dsp inputs are a function of the sample index; programs keep signal state in self/mem/delay only (as the property states).", "DESIGN.md §3 C06"),
     "C05": ("online trace checker over hooked state operations (VM instructions + WASM host functions) against the cells of the published skeleton; cursor and VM/WASM state-word comparison after every sample",
             "Every Get/Set/Mem/Delay state operation of both runtimes is recorded by cfg-guarded hooks and matched against the published layout (address, size, kind), walked independently by the harness and cross-checked against path_to_address; the cursor must return to 0 after each dsp call and both runtimes must hold identical words after every sample. Workload: generated stateful call trees and all shipped sources.",
-            "Trusts the hooks (add-only, reviewed) and the harness' prefix-sum walk; state in if arms is a known finding kept out of general exploration; WASM closure storages grow lazily and are not judged.", "DESIGN.md §3 C05"),
+            "Trusts the hooks (add-only, reviewed) and the harness' prefix-sum walk; state in if arms is generated since the branch-layout repair (regression witnesses under findings/core/fixed); WASM closure storages grow lazily and are not judged.", "DESIGN.md §3 C05"),
     "C01": ("differential oracle VM vs WASM over generated + shipped + mutated programs (outputs, accept/reject, state words), hostile dsp inputs",
             "Runs every case on both back ends through the CLI's own code path and compares accept/reject, channel counts, every output word bitwise, return codes and flat state words after every sample; cases come from a typed program generator (all features, NaN/inf/-0/subnormal inputs), the shipped sources and operator/constant mutations of them. Held on what was observed; disagreement classes already triaged are listed as known findings and kept out of general exploration by named generator quarantines.",
             "Trusts the harness runners (same call sequence as mimium-cli::run_file) and the dynamic quarantine predicate evaluated by the reference interpreter.", "DESIGN.md §3 C01"),
     "C02": ("reference-interpreter oracle: generated well-typed core programs run on VM and WASM and compared bitwise with an independent executable semantics; witnesses minimised by a G-AST shrinker",
             "An independent interpreter over the generator's own AST (per-textual-call-site zero-initialised state, call by value, left to right) is the executable statement of the property; both back ends must reproduce its output stream bit for bit on thousands of generated programs and input streams.",
             "Trusts the reference interpreter (harness/src/refsem, ~450 lines, shares no code with the compiler) and Rust f64 arithmetic; lambdas/function values are stateless by construction; situations the statement leaves open (NaN as truth value, delay time outside 1..n-1) are detected on the reference execution and not judged.", "DESIGN.md §3 C02"),
-    "C03": ("process-outcome + hook-assertion monitor: type-checked programs (generated, near-miss mutants, shipped, mutated) compiled and run on both back ends with bounds assertions at the VM's unchecked access sites and a logical instruction budget",
+    "C03": ("process-outcome + hook-assertion monitor: type-checked programs (generated, near-miss mutants, shipped, mutated) compiled and run on both back ends with bounds assertions at the VM's unchecked access sites and a logical instruction budget; thorough adds an AddressSanitizer stage (whole worker incl. wasmtime) and a Miri stage (VM back end, tiny programs)",
             "Every case is compiled for VM and WASM and runs main + n dsp calls in a supervised worker with cfg-guarded assertions before every unchecked state/global/upvalue/closure/delay-size access; panics, aborts (attributed by the supervisor), step-budget overruns, WASM traps, invalid modules and wrong dsp word counts refute the property. Sanitizer reruns (valgrind / ASan) of the same workload are available through tools/.",
             "Observes only the hooked sites and whatever panics; WASM memory safety is wasmtime's sandbox; n <= 64 dsp calls in quick.", "DESIGN.md §3 C03"),
     "C08": ("structural oracle over real patch plans on exhaustively enumerated + edit-script-derived layout pairs (tagged storage)",
             "Runs the real build_state_storage_patch_plan/apply_state_storage_patch_plan on every ordered pair of layouts up to a node bound and on edit-script pairs, and checks every clause of the property on the returned plan and on uniquely tagged migrated storage. Exhaustive within the bound, sampled beyond it; nothing is modelled.",
             "Trusts the harness' own prefix-sum layout walk and tree-inclusion checker; u64 sizes stand in for StateType.", "DESIGN.md §3 C08"),
-    "C20": ("round-trip oracle over the real FFI encoders/decoders (ffi_serde value and macro-argument paths, hand-written serde of Value and Type, TypeNodeId) on exhaustively enumerated and random values/types, with a structural comparator and refusal checks",
+    "C20": ("round-trip oracle over the real FFI encoders/decoders (ffi_serde value and macro-argument paths, hand-written serde of Value and Type, TypeNodeId) on exhaustively enumerated and random values/types, with a structural comparator and refusal checks; every representable value also crosses the host side of the dynamic-plugin macro bridge (DynPluginMacroInfo) around an in-process identity macro",
             "Executes serialize_value/deserialize_value, serialize_macro_args/deserialize_macro_args and bincode over `impl Serialize/Deserialize for Value`, `for Type` and TypeNodeId of the repository on every value of depth <= 2 / width <= 2 over 14 boundary leaves (NaN payloads, -0.0, inf, subnormal, empty/non-ASCII/NUL/64 KiB strings, code), every depth-3 constructor chain, every type of depth <= 2 / width <= 2 over 9 leaves and every depth-3 type-constructor chain, plus random deeper/wider artefacts; compares what was decoded with what was encoded (floats by bits, strings by bytes, ordered record keys, u64 tags, expression/type identity) and requires an Err for values that cannot cross, in every nesting context of depth <= 2. Exhaustive within the stated bounds, sampled beyond; nothing is modelled.",
             "Trusts the harness' structural comparator; host and plugin share the interner (as plugin/loader.rs arranges), so ids are compared by key first; bincode is the only wire format exercised; Value::ErrorV (known finding, altered to Unit) is excluded from general exploration by the quarantine errorv-leaf and replayed as a witness; Miri only on demand (tools/c20_miri.sh).", "DESIGN.md §3 C20"),
 }
